@@ -2,6 +2,7 @@
 // when built with -DVP_FAULT: allocation faults injected at every request position).
 #include "fault.h"
 #include <algorithm>
+#include <climits>
 #include <string>
 #include <vector>
 extern "C" {
@@ -32,10 +33,24 @@ static uint8_t const dict[] = {16, 6, 5, 11, 12, 13, 14};
 static vp_info const info = {PROP_ID, UNIT, "", labels, metrics, 300, dict, sizeof(dict)};
 extern "C" vp_info const *vp_get_info(void) { return &info; }
 
+// The comparison contract is the sign of the result only; the style is fixed per history (0: -1/0/+1, 1: difference,
+// 2: difference * 1000, 3: INT_MIN/0/INT_MAX, 4..7: asymmetric mixes).
+static int g_cmp_style = 0;
 static int cmp_first(void const *a, void const *b)
 {
-    uint8_t x = *(uint8_t const *)a, y = *(uint8_t const *)b;
-    return (x > y) - (x < y);
+    int x = *(uint8_t const *)a, y = *(uint8_t const *)b;
+    int s = (x > y) - (x < y);
+    switch (g_cmp_style & 7)
+    {
+    default: case 0: return s;
+    case 1: return x - y;
+    case 2: return (x - y) * 1000;
+    case 3: return s > 0 ? INT_MAX : s < 0 ? INT_MIN : 0;
+    case 4: return s > 0 ? 2 : s;
+    case 5: return s < 0 ? -2 : s;
+    case 6: return s > 0 ? x - y + 1 : s;
+    case 7: return s < 0 ? INT_MIN : x - y;
+    }
 }
 static int copy_elem_siz = 1;
 static int copy_calls = 0;
@@ -795,6 +810,8 @@ static void run_history(Tape &t, Ctx &cx, uint64_t fail_at, int mode, uint64_t *
     uint8_t h = t.u8();
     bool is_buf = h & 1;
     r.nbox = (h & 2) ? 2 : 1;
+    g_cmp_style = (h >> 2) & 7; // upper bits of the same byte (saved tapes keep their meaning)
+    cx.hash.add(uint64_t(g_cmp_style) << 8);
     for (int i = 0; i < r.nbox; ++i) { make_box(r, r.bx[i], t, is_buf); }
     unsigned maxops =
 #ifdef VP_FAULT
